@@ -313,7 +313,7 @@ func genCliCase(t *rapid.T) cliCase {
 				walk = append(walk, ins("NOP", "$", 0, "$", 0))
 			}
 		}
-		walk = append(walk, ins("JMP", "$", int64(-(n1 - 1)), "$", 0))
+		walk = append(walk, ins("JMP", "$", int64(-(n1-1)), "$", 0))
 		blank := ins("DAT", "$", 0, "$", 0)
 		if legacy {
 			blank = ins("DAT", "#", 0, "#", 0)
